@@ -45,20 +45,6 @@ MissOf(k) == CASE Configs = "code"   -> {"none"} \cup UncopiedByCode[k]
                [] Configs = "fields" -> AllFields
                [] OTHER              -> {Configs}
 
-\* one representative per acceptance rule / content field
-SmallEdits(k) ==
-   {e \in Edits(k) :
-      \/ e.op = "fluent" /\ e.k \in {"none", "t"}
-      \/ e.op \in {"object", "action"}
-      \/ e.op = "goal" /\ e.a \in {"g1", "gtrue"}
-      \/ e.op \in {"teff", "acteff"} /\ e.t # "e" /\
-            \/ e.f = "x" /\ e.k = "asg" /\ (~e.c \/ e.v = 1)
-            \/ e.f = "x" /\ e.k = "inc" /\ ~e.c
-            \/ e.f = "b" /\ e.k = "asg" /\ e.v = 1 /\ ~e.c
-      \/ e.op = "tgoal" /\ e.a = "g1" /\ e.t \in {"p5", "bad"}
-      \/ e.op = "traj" /\ e.a \in {"tr1", "bad"}
-      \/ e.op = "metric" /\ e.a \in {"minx", "cost"}
-      \/ e.op = "init" /\ <<e.f, e.v>> \in {<<"x", 1>>, <<"b", 2>>, <<"n", 1>>}}
 TEditsTab == TLCEval([k \in Classes |-> IF Small THEN SmallEdits(k) ELSE Edits(k)])
 TEdits == TEditsTab[cls]
 \* the edits whose acceptance the Impl layer decides from its bookkeeping
